@@ -82,6 +82,11 @@ private:
 	// set while the connection to the origin is being established
 	bool m_connecting;
 
+	// the origin the requests of the current client connection go to. The
+	// host is empty until the first request has been seen
+	std::string m_origin_host;
+	int m_origin_port;
+
 	// receive buffer for requests from the client. i.e. client -> proxy (us) -> server
 	char m_client_in_buffer[65536];
 	// buffer size
